@@ -339,10 +339,10 @@ func (s *sched) step(w *worker) bool {
 }
 
 type scenario struct {
-	name             string
-	pre              []op // executed uncontrolled before the concurrent part
-	threads          [][]op
-	wantAllFinish    bool
+	name          string
+	pre           []op // executed uncontrolled before the concurrent part
+	threads       [][]op
+	wantAllFinish bool
 }
 
 // runSchedule executes one schedule: choices[i] picks among the eligible workers at decision i
